@@ -335,6 +335,14 @@ def search(ctx, out, extra):
     from .. import exec_props as X
     from ..execworld import ExecImpl
     stats = collections.Counter()
+    # a disagreement with the combined machine (layer `edit`): the history on which modelx held more / less than the
+    # machine, continued by evaluating everything, judged by the fresh-model oracle
+    for d in out.disagreements:
+        h = d.get("history")
+        if isinstance(h, dict) and "ops" in h and str(d.get("layer", "")).startswith("edit:"):
+            S.run_one(S.ops_from_json(h) + [["evalall"]], extra, stats, H(), CFG)
+            if any(f.get("key") is None for f in extra.failures):
+                return
     for i in range(ctx.n(120, 1500)):
         case = X.gen_case(ctx.rng("search", i), SEARCH_CFG)
         impl = ExecImpl(case["cells"], case["refs"], case["n_rn"], case["maxdepth"], log=False)
